@@ -1,0 +1,24 @@
+//go:build verif
+
+package proposal
+
+import (
+	"github.com/onosproject/onos-config/pkg/pluginregistry"
+	"github.com/onosproject/onos-config/pkg/southbound/gnmi"
+	"github.com/onosproject/onos-config/pkg/store/topo"
+	"github.com/onosproject/onos-config/pkg/store/v2/configuration"
+	proposalstore "github.com/onosproject/onos-config/pkg/store/v2/proposal"
+)
+
+// NewReconcilerForVerif exposes the reconciler to the verification harness
+func NewReconcilerForVerif(topo topo.Store, conns gnmi.ConnManager, proposals proposalstore.Store, configurations configuration.Store, pluginRegistry pluginregistry.PluginRegistry) *Reconciler {
+	return &Reconciler{conns: conns, topo: topo, proposals: proposals, configurations: configurations, pluginRegistry: pluginRegistry}
+}
+
+// NewWatcherForVerif exposes the watcher
+func NewWatcherForVerif(proposals proposalstore.Store) *Watcher { return &Watcher{proposals: proposals} }
+
+// NewConfigurationWatcherForVerif exposes the watcher
+func NewConfigurationWatcherForVerif(configurations configuration.Store) *ConfigurationWatcher {
+	return &ConfigurationWatcher{configurations: configurations}
+}
